@@ -28,6 +28,7 @@ META = {
                   "clauses; that the real clause generation is the modelled one is tested by the differential run, not proved. "
                   "Only type arguments are modelled (no lifetimes/consts), builtin types are scalars, unit and tuples.",
     "design_ref": "DESIGN.md §4 C20, §5 F6",
+    "bins": ["coh"],
     "assumptions": [
         "type arguments only: structs (local, upstream, fundamental), scalars, str/never are not generated, tuples, impl type parameters",
         "a tuple counts as upstream whatever its components (like a non-fundamental upstream struct)",
